@@ -472,25 +472,31 @@ def _shape_report(ctx):
     vals = common.eval_terms(ctx, "shape", HEADER, ["unknown_as_none", "kw_ovr_is_str"])
     ctx.stats["unknown_as_none"] = vals[0]
     ctx.stats["kw_ovr_is_str"] = vals[1]
-    rel = f"cases/{ctx.pid}_full.v"
-    (COQ / rel).write_text(
-        "From SV Require Import model.Hash props.C13.\n"
-        "Theorem C13_inp_preimage_injective : C13_inp_full.\n"
-        "Proof. exact (C13_inp_full_when_repaired eq_refl eq_refl). Qed.\n"
-        "Theorem C13_out_preimage_injective : C13_out_full.\n"
-        "Proof. exact (C13_out_full_when_repaired eq_refl). Qed.\n")
-    ok, log = common.coqc_file(rel, timeout=300) if (COQ / "props/C13.vo").exists() else (False, "props/C13.vo missing")
-    ctx.stats["full_statements_close"] = ok
-    for ext in (".v", ".vo", ".glob", ".vok", ".vos"):
-        q = COQ / (rel[:-2] + ext)
-        if q.exists():
-            q.unlink()
-    if vals[0] == "true" and vals[1] == "false" and not ok and (COQ / "props/C13.vo").exists():
-        ctx.add_failure("coq", "C13_inp_full", "coq:C13_full-does-not-close-on-repaired-shape",
-                        "both shape conditions hold but the full statements do not close: " + common.tail(log, 600))
+    have_props = (COQ / "props/C13.vo").exists()
+    closes = {}
+    for which, proof in (("inp", "C13_inp_full_when_repaired eq_refl eq_refl"), ("out", "C13_out_full_when_repaired eq_refl")):
+        rel = f"cases/{ctx.pid}_full_{which}.v"
+        (COQ / rel).write_text(
+            "From SV Require Import model.Hash props.C13.\n"
+            f"Theorem C13_{which}_preimage_injective : C13_{which}_full.\n"
+            f"Proof. exact ({proof}). Qed.\n"
+            f"Print Assumptions C13_{which}_preimage_injective.\n")
+        ok, log = common.coqc_file(rel, timeout=300) if have_props else (False, "props/C13.vo missing")
+        closes[which] = ok and "Closed under the global context" in log
+        for ext in (".v", ".vo", ".glob", ".vok", ".vos"):
+            q = COQ / (rel[:-2] + ext)
+            if q.exists():
+                q.unlink()
+        expected = (vals[0] == "true" and vals[1] == "false") if which == "inp" else vals[0] == "true"
+        if have_props and expected and not closes[which]:
+            ctx.add_failure("coq", f"C13_{which}_full", f"coq:C13_{which}_full-does-not-close-on-repaired-shape",
+                            f"the shape conditions hold but C13_{which}_full does not close: " + common.tail(log, 600))
+    ctx.stats["full_statements_close"] = closes
     ctx.notes.append(
-        f"shape: unknown_as_none={vals[0]} kw_ovr_is_str={vals[1]}; full statements C13_inp_full/C13_out_full "
-        f"{'close without extra hypotheses' if ok else 'are proved only under inp_ok/digests_ok (see props/C13.v)'}")
+        f"shape: unknown_as_none={vals[0]} kw_ovr_is_str={vals[1]}; "
+        + "; ".join(f"C13_{w}_full " + ("closes without extra hypotheses" if c else
+                                        "is proved only under the extra hypotheses (see props/C13.v)")
+                    for w, c in closes.items()))
 
 
 # ---------------------------------------------------------------------------------------------
